@@ -129,7 +129,8 @@ func (p *PortSet) Intersection(other *PortSet) {
 
 // IsAll: return true if current PortSet object contains all ports
 func (p *PortSet) IsAll() bool {
-	return p.Equal(MakePortSet(true))
+	// a set allowing the full numeric range allows every port, whatever named ports it also lists
+	return p.Ports.Equal(MakePortSet(true).Ports)
 }
 
 const comma = ","
